@@ -1,57 +1,10 @@
 package main
 
 import (
-	"fmt"
 	"reflect"
+
+	. "digverif/vt"
 )
-
-// Tok is the provenance token carried by every value a harness-owned user
-// function returns. Pointer identity of the Tok is instance identity.
-type Tok struct {
-	Fn, Exec, Slot, Elem int
-	Tainted              bool // minted by an execution that failed
-}
-
-func (t *Tok) String() string {
-	if t == nil {
-		return "zero"
-	}
-	s := fmt.Sprintf("f%d#%d.%d.%d", t.Fn, t.Exec, t.Slot, t.Elem)
-	if t.Tainted {
-		s += "!"
-	}
-	return s
-}
-
-// Carrier types. Method sets decide which interfaces they implement.
-type V0 struct{ P *Tok }
-type V1 struct{ P *Tok }
-type V2 struct{ P *Tok }
-type V3 struct{ P *Tok }
-type V4 struct{ P *Tok }
-type V5 struct{ P *Tok }
-type V6 struct{ P *Tok }
-type V7 struct{ P *Tok }
-
-func (V0) M0() {}
-func (V1) M0() {}
-func (V1) M1() {}
-func (V2) M1() {}
-func (V2) M2() {}
-func (V3) M0() {}
-func (V3) M1() {}
-func (V3) M2() {}
-func (V5) M2() {}
-func (V6) M0() {}
-func (V6) M2() {}
-
-type I0 interface{ M0() }
-type I1 interface{ M1() }
-type I2 interface{ M2() }
-type I3 interface {
-	M0()
-	M1()
-}
 
 const (
 	nCarriers  = 8
